@@ -336,7 +336,7 @@ func (r *real) observeAll(idx int, s *Step, multiget bool) (first *mismatch, ext
 			}
 		}
 		detail := "full scan of a new reader " + problem
-		if getsOK && problem == "" {
+		if getsOK && problem == "" && cl != "batch-repeated-key-order" {
 			cl = "scan-disagrees-with-get"
 			detail = "full scan of a new reader misses/adds keys although every Get of the same reader agrees with the model"
 		}
